@@ -295,7 +295,10 @@ impl RecordSet {
                     match &soa_record.data {
                         RData::SOA(existing_soa) => {
                             if let RData::SOA(new_soa) = &record.data {
-                                if new_soa.serial <= existing_soa.serial {
+                                // RFC 2136 3.4.2.2 / RFC 1982: ignore unless the new serial is
+                                // greater than the current one in serial number arithmetic
+                                let ahead = new_soa.serial.wrapping_sub(existing_soa.serial);
+                                if ahead == 0 || ahead >= 1 << 31 {
                                     info!(
                                         "update ignored serial out of data: {:?} <= {:?}",
                                         new_soa, existing_soa
